@@ -8,7 +8,7 @@ BASE = json.load(open("/root/.vp/BASELINE.json")) if os.path.exists("/root/.vp/B
 
 CHECKS = {
  "C01": dict(
-  text="Lean 4 theorems over an interpreter for a core fragment (ints, bools, strings, List[int]; all arithmetic incl. // and %, comparisons, short-circuit and/or, not, len, indexing, concatenation, calls; let/mut/assignment/compound assignment, if-elif-else, while, for over range and lists, break/continue/return, append, print): `desugarS_sound` / `desugarB_sound` / `desugarElse_sound` (mutual structural induction, any shape and depth, every call oracle and fuel) — the compiler's restructuring (elif chains into nested if/else, `x op= e` into `x = x op e`, parenthesis nodes removed) preserves output, final variables, control flow and the way a run stops; `program_desugar_sound` lifts it to whole programs at every call depth; `desugarB_core` — the result uses only the core constructs; `elif_order`; the string comparison helpers are a total order with `<=`/`>=` holding on equal strings (`strRel_le`, `strRel_ge`, `strRel_refl`, `strRel_flip`, `strCmp_swap`); `compile_preserves_meaning_partial` — for programs whose emitted text rustc groups as the source does (`Safe`, computed per program) the compiled program means what the source means; the full statement is false: `grouping_lost_witness` (kernel-checked re-readings) and `only_not_regroups` / `not_regroups` on the precedence tables.",
+  text="Lean 4 theorems over an interpreter for a core fragment (ints, bools, strings, List[int]; all arithmetic incl. // and %, comparisons, short-circuit and/or, not, len, indexing, concatenation, calls; let/mut/assignment/compound assignment, if-elif-else, while, for over range and lists, break/continue/return, append, print): `desugarS_sound` / `desugarB_sound` / `desugarElse_sound` (mutual structural induction, any shape and depth, every call oracle and fuel) — the compiler's restructuring (elif chains into nested if/else, `x op= e` into `x = x op e`, parenthesis nodes removed) preserves output, final variables, control flow and the way a run stops; `program_desugar_sound` lifts it to whole programs at every call depth; `desugarB_core` — the result uses only the core constructs; `elif_order`; `method_call_runs_most_derived_body` / `redeclared_method_is_own` (along an `extends` chain a call runs the body of the most derived class declaring the method: the model of collect_inherited_methods, tied to compiled class chains); the string comparison helpers are a total order with `<=`/`>=` holding on equal strings (`strRel_le`, `strRel_ge`, `strRel_refl`, `strRel_flip`, `strCmp_swap`); `compile_preserves_meaning_partial` — for programs whose emitted text rustc groups as the source does (`Safe`, computed per program) the compiled program means what the source means; the full statement is false: `grouping_lost_witness` (kernel-checked re-readings) and `only_not_regroups` / `not_regroups` on the precedence tables.",
   note="Partial: Safe programs of the core fragment. The recorded finding (grouping lost in infix emission, pinned by the `operators` snapshot) is reproduced exactly by the re-reading model on every unsafe program; a wrong result that the model does not explain, or on a Safe program, is a violation. Rust's meaning of the core constructs is trusted and validated by running. One fix: commit recorded under C13 (user methods named like builtins were silently not called).",
   technique="Lean 4 proof (mutual structural induction over statements/blocks/else-chains; order lemmas; finite precedence tables) + compiled-program correspondence with a re-reading model + CPython oracle",
   ref="C01"),
@@ -18,12 +18,12 @@ CHECKS = {
   technique="Lean 4 proof (simulation between checker scopes and rustc scopes, mutual structural induction) + checker/build correspondence on generated variants + build oracle with per-construct probes",
   ref="C02"),
  "C03": dict(
-  text="Lean 4 theorems: `every_position_checked` — over function bodies of any shape and depth (mutual induction on expressions, statements and blocks) every expression position and every statement of every block is handed to the checker, given the role table that the correspondence validates role by role (kernel-checked witness `elif_was_skipped` for the table before the fix); `reassign_immutable_rejected` / `reassign_mutable_accepted` / `fresh_name_accepted` — a plain `x = value` is rejected exactly when the nearest `x` bound in this or any enclosing block of the function is immutable, at any nesting depth (witness `old_checker_missed_nested`); `omitted_variant_reported` / `complete_match_accepted` — a variant no arm names, in a match without catch-all, is reported missing, and a complete match is not. Which diagnostics each rule produces, and that they are located on the edited lines, is decided by editing real programs at every position and running the real checker.",
-  note="Six fix: commits repaired gaps found by this check (elif branches, nested re-assignment, `?` outside Result functions, plain call arguments, match guards; plus the .clone() fix found under C20). Open finding: diagnostics inside compound f-string interpolations are located relative to the interpolation. Trait-adoption rules (declaration level) are not edited here.",
+  text="Lean 4 theorems: `every_position_checked` — over function bodies of any shape and depth (mutual induction on expressions, statements and blocks) every expression position and every statement of every block is handed to the checker, given the role table that the correspondence validates role by role (kernel-checked witness `elif_was_skipped` for the table before the fix); `reassign_immutable_rejected` / `reassign_mutable_accepted` / `fresh_name_accepted` — a plain `x = value` is rejected exactly when the nearest `x` bound in this or any enclosing block of the function is immutable, at any nesting depth (witness `old_checker_missed_nested`); `omitted_variant_reported` / `complete_match_accepted` — a variant no arm names, in a match without catch-all, is reported missing, and a complete match is not; `wrong_argument_reported` / `wrong_named_argument_reported` / `surplus_argument_reported` / `unknown_keyword_reported` / `missing_argument_reported` / `fitting_arguments_accepted` over the model of validate_method_call_args + check_required_arguments (any number of parameters, positional and keyword arguments, defaults); `missing_required_method_reported` / `wrong_signature_reported` / `missing_required_field_reported` / `wrong_field_type_reported` / `conforming_adopter_accepted` over the model of trait adoption. Which diagnostics the remaining rules produce, and that they are located on the edited lines, is decided by editing real programs at every position and running the real checker.",
+  note="Six fix: commits repaired gaps found by this check (elif branches, nested re-assignment, `?` outside Result functions, plain call arguments, match guards; plus the .clone() fix found under C20). Open finding: diagnostics inside compound f-string interpolations are located relative to the interpolation. Trait adoption is exercised through generated trait / adopter pairs (class, model, class inheriting members).",
   technique="Lean 4 proof (mutual structural induction over the traversal; scope-chain lemmas; list reasoning for match coverage) + single-edit correspondence on real programs + rule oracle",
   ref="C03"),
  "C04": dict(
-  text="Lean 4 theorems over all Int64 pairs: both copies of the // and % kernels compute Int.fdiv / Int.fmod (floor, sign of divisor, |r|<|b|, a = q*b + r without wrap), are equal as functions (incl. panicking pairs), zero divisor gives exactly the documented error, no other failure except MIN // -1. Float kernels: executable Lean model tied bit-for-bit to the real f64 kernels; Python itself is the oracle.",
+  text="Lean 4 theorems over all Int64 pairs: both copies of the // and % kernels compute Int.fdiv / Int.fmod (floor, sign of divisor, |r|<|b|, a = q*b + r without wrap), are equal as functions (incl. panicking pairs), zero divisor gives exactly the documented error, no other failure except MIN // -1. Float kernels: executable Lean model tied bit-for-bit to the real f64 kernels; Python itself is the oracle. The operators as programs use them (binary and compound forms on int / float / mixed variables) are compiled and run and tied to the same model.",
   note="Kernel-checked for the integer kernels; float rounding is outside any theorem (tie + oracle only). Model tied to /repo by differential correspondence on grids + seeded pairs (coverage in evidence).",
   technique="Lean 4 proof (Int64 -> Int refinement, omega) + model/implementation correspondence + Python oracle",
   ref="C04"),
@@ -43,7 +43,7 @@ CHECKS = {
   technique="Lean 4 proof (structural induction over expression trees; finite table by cases) + correspondence with checker/lowering/emit-plan + documented-table oracle",
   ref="C07"),
  "C08": dict(
-  text="Lean 4 theorem `roundtrip` over the whole expression ladder (or/and/not/9 comparison forms incl. two-token `not in`/range/additive/multiplicative/right-assoc power over unary/prefix -, await/postfix ?, indexing/primary, explicit Paren), for trees of any shape and depth the parser can produce: parse(fmt e) = e with nothing left over, for every sufficiently large fuel; corollary: the formatter is injective on producible trees. The model parser is one table-driven recursive descent mirroring the eleven parser functions; the model printer mirrors format_expr (never adds parentheses). Statements, declarations, patterns, types and literals have no model: for them AST preservation is decided by the oracle (real format_source + real parser, AST compared with spans erased).",
+  text="Lean 4 theorem `roundtrip` over the whole expression ladder (or/and/not/9 comparison forms incl. two-token `not in`/range/additive/multiplicative/right-assoc power over unary/prefix -, await/postfix ?, indexing/primary, explicit Paren), for trees of any shape and depth the parser can produce: parse(fmt e) = e with nothing left over, for every sufficiently large fuel; corollary: the formatter is injective on producible trees. The model parser is one table-driven recursive descent mirroring the eleven parser functions; the model printer mirrors format_expr (never adds parentheses). String and bytes literals have their own model (Syntax/Literals): `string_literal_roundtrip`, `string_literal_lexes`, `bytes_literal_roundtrip` — for every value, what format_literal / escape_string writes is read back by scan_string / scan_byte_string as exactly that value (any length, every byte value; apostrophes stay bare: `apostrophe_must_stay_bare`). Statements, declarations, patterns and types have no model: for them AST preservation is decided by the oracle (real format_source + real parser, AST compared with spans erased).",
   note="Token-level theorem; text->token lexing of printed output and everything outside the expression ladder are oracle-only. Tie: model parse = real parser (trees and rejections) and model fmt = real formatter output re-lexed, on seeded random expressions; oracle corpus: all repository .incn files + /verif/corpus/fmt construct files + random expressions.",
   technique="Lean 4 proof (induction over producibility derivations, fuel-convergence calculus) + parser/formatter correspondence + AST-equality oracle",
   ref="C08"),
@@ -68,7 +68,7 @@ CHECKS = {
   technique="Lean 4 proof (sorting + permutation invariance) + manifest correspondence + cross-process byte-comparison oracle",
   ref="C12"),
  "C13": dict(
-  text="The model's keyword tables are REGENERATED from /repo on every run (RUST_KEYWORDS, and the real lexer's verdict on which Rust keywords are legal Incan identifiers), then Lean 4 re-checks: the table contains every Rust 2021 strict/reserved keyword and nothing else (`table_complete`, `table_sound`, against an independently transcribed reference list); every Rust keyword that is a legal Incan name can be written as a raw identifier, except `Self` (`legal_keywords_rawable`, witness `self_type_name_unemittable`); `emitted_identifier_valid_partial` — for every name and every binding position the identifier the emitter builds is one rustc accepts; emission is injective, so a consistent renaming preserves the binding structure (`emit_injective`, `rename_preserves_binding`); non-keywords are left untouched. That an accepted identifier also leaves behaviour unchanged is decided by compiling and running one program per (position, name) and comparing with the plain-named program.",
+  text="The model's keyword tables are REGENERATED from /repo on every run (RUST_KEYWORDS, and the real lexer's verdict on which Rust keywords are legal Incan identifiers), then Lean 4 re-checks: the table contains every Rust 2021 strict/reserved keyword and nothing else (`table_complete`, `table_sound`, against an independently transcribed reference list); every Rust keyword that is a legal Incan name can be written as a raw identifier, except `Self` (`legal_keywords_rawable`, witness `self_type_name_unemittable`); `emitted_identifier_valid_partial` — for every name and every binding position the identifier the emitter builds is one rustc accepts; emission is injective (tied by the spelling of locals / fields in the emitted Rust, by sibling names bound side by side, and by a rename sweep over every declared identifier of the corpus and repository programs), so a consistent renaming preserves the binding structure (`emit_injective`, `rename_preserves_binding`); non-keywords are left untouched. That an accepted identifier also leaves behaviour unchanged is decided by compiling and running one program per (position, name) and comparing with the plain-named program.",
   note="Partial at the token level: clashes with generated temporaries (__parts/__args) and relied-on type names (String, Vec, …) and the name `Self` are recorded findings. 11 unescaped positions (function, method, field, const, enum, variant, trait, comprehension variable, …) were repaired by a fix: commit.",
   technique="Lean 4 proof over tables regenerated from the source (translator) + finite-table decide + compiled-program correspondence + renaming oracle",
   ref="C13"),
@@ -78,7 +78,7 @@ CHECKS = {
   technique="Lean 4 proof (partial agreement theorem + witnesses, invariants of the work list) + resolver correspondence on real directory trees + agreement/visibility oracle",
   ref="C14"),
  "C15": dict(
-  text="Lean 4 theorems about the model of add_rust_crate / generate_cargo_toml: every accepted dependency is pinned (version or path; the whole known-good table checked), a crate without a known-good version is always refused, the declared names are exactly the fixed runtime/feature crates plus the rust:: crates (both directions), and no name is declared twice (valid TOML keys). Feature detection (serde/async/web → flags) is modelled as the three scanner outcomes; which constructs trigger a scanner is oracle-only.",
+  text="Lean 4 theorems about the model of add_rust_crate / generate_cargo_toml: every accepted dependency is pinned (version or path; the whole known-good table checked), a crate without a known-good version is always refused, the declared names are exactly the fixed runtime/feature crates plus the rust:: crates (both directions), and no name is declared twice (valid TOML keys). Feature detection: `json_trigger_found_everywhere` / `async_trigger_found_everywhere` — a trigger at any expression position (any path of walker steps: owners incl. newtype methods, trait default methods, const initializers and field defaults; every statement and expression child) is followed by the scanners' match arms (Tool/Scanners: step tables transcribed arm by arm, `decide` over the whole step vocabulary), with the kernel-checked witness `json_trigger_was_missed` for the scanners before three `fix:` commits.",
   note="Tie: model manifest = Cargo.toml written by ProjectGenerator (flags × crate sets, whole table) and by `incan build` with a stub cargo (8 feature-trigger combinations, imports in main and dependency modules, project names). Oracle: exactness, pinning, package/binary name, references found in generated sources ⊆ declared.",
   technique="Lean 4 proof (table + list reasoning) + manifest correspondence + exactness/pinning oracle",
   ref="C15"),
@@ -93,17 +93,17 @@ CHECKS = {
   technique="Lean 4 proof (structural induction with a value invariant; selection lemmas; counter-example witness) + compiled-program correspondence + hook-enforcement oracle",
   ref="C17"),
  "C18": dict(
-  text="Lean 4 theorem `converges`: for every history of didOpen/didChange/didClose over any number of documents and every interleaving of the handlers' store steps (each handler starts in arrival order, stores at any later time), after quiescence the stored text of each document is that of the last notification sent for it, and nothing after a close — proved by an invariant over schedule prefixes for the ticket protocol the server uses after the fix. The pre-fix protocol is kept in the model with kernel-checked counter-examples (stale overwrite, close undone, broken text not stored).",
+  text="Lean 4 theorem `converges`: for every history of didOpen/didChange/didClose over any number of documents and every interleaving of the handlers' store steps (each handler starts in arrival order, stores at any later time), after quiescence the stored text of each document is that of the last notification sent for it, and nothing after a close — proved by an invariant over schedule prefixes for the ticket protocol the server uses after the fix. The pre-fix protocol is kept in the model with kernel-checked counter-examples (stale overwrite, close undone, broken text not stored). `open_dependency_overrides_disk`: an importer is analysed against the editor text of an open dependency (tied by comparing importer diagnostics with a dependency text in the editor vs on disk).",
   note="Assumes the framework first-polls handlers in arrival order (tower-lsp buffer_unordered). Tie: the real IncanLanguageServer is driven as a tower Service, handler futures polled by hand in seeded schedules with the client channel drained on demand; its own receive/store event order (cfg(incan_verif) hook) is replayed on the model, which must accept every real store and predict the final hover. Real threads are not exercised.",
   technique="Lean 4 proof (inductive invariant over all interleavings) + event-log replay correspondence + convergence oracle",
   ref="C18"),
  "C19": dict(
-  text="Lean 4 theorems over all documents (List Char, no length bound): offset->position->offset round trip on every character boundary, strict monotonicity, agreement with counting newlines/characters, span_to_range well-formed and inside the document for every pair of raw offsets (empty, reversed, past the end, inside a character), terminal line = editor line + 1; terminal column proved to be a byte count (partial: agrees with the character count when the line prefix is ASCII; counter-example kernel-checked and listed as a known finding).",
+  text="Lean 4 theorems over all documents (List Char, no length bound): offset->position->offset round trip on every character boundary, strict monotonicity, agreement with counting newlines/characters, span_to_range well-formed and inside the document for every pair of raw offsets (empty, reversed, past the end, inside a character), terminal line = editor line + 1; `terminal_col_agrees` — the column of `file:line:col` is the character count + 1 on every character boundary of every document (unconditional since the fix that made get_line_info count characters; the pre-fix byte count is kept as `getLineInfoBytes` with the kernel-checked witness `old_terminal_col_counted_bytes`).",
   note="u32/usize counters modelled as Nat; model tied to the real functions (and format_error rendering) by exhaustive small documents over a 6-character alphabet plus random documents.",
   technique="Lean 4 proof (induction over documents, loop invariants) + exhaustive small-document correspondence + counting oracle",
   ref="C19"),
  "C20": dict(
-  text="Lean 4 theorems over a value model of models/classes (int, bool, str, float bits, Option, List, Dict[str,·], nested structs with ordered named fields) and abstract JSON: `roundtrip` — by mutual structural induction, decode t (encode v) = v for every value of every well-formed type at any nesting depth (struct fields found by name among distinct names, Option as value-or-null over non-option payloads); `json_field_names` (exactly the declared names, in declaration order) and the type-mapping rows; `eq_iff_structural` (== holds iff the values are identical field by field, at any depth), `eq_fields`; `ord_lexicographic` (the first differing field in declaration order decides), `cmpV_swap` / `lt_iff_gt` / `cmpV_refl_of_eq` (a < b iff b > a, at any depth); `hash_respects_eq` (equal values feed the hasher identical input); `derives_closed` / `derives_kept` — for every subset of the documented derives (no hypothesis since the PartialOrd fix) the emitted #[derive] list satisfies rustc's supertrait requirements and keeps what the user wrote.",
+  text="Lean 4 theorems over a value model of models/classes (int, bool, str, float bits, Option, List, Dict[str,·], nested structs with ordered named fields) and abstract JSON: `roundtrip` — by mutual structural induction, decode t (encode v) = v for every value of every well-formed type at any nesting depth (struct fields found by name among distinct names, Option as value-or-null over non-option payloads); `json_field_names` (exactly the declared names, in declaration order) and the type-mapping rows; `eq_iff_structural` (== holds iff the values are identical field by field, at any depth), `eq_fields`; `chain_fields_in_declaration_order` (the struct of a class in an `extends` chain lists the ancestors' fields root first, then its own: the order Ord compares in and JSON is written in), `ord_lexicographic` (the first differing field in declaration order decides), `cmpV_swap` / `lt_iff_gt` / `cmpV_refl_of_eq` (a < b iff b > a, at any depth); `hash_respects_eq` (equal values feed the hasher identical input); `derives_closed` / `derives_kept` — for every subset of the documented derives (no hypothesis since the PartialOrd fix) the emitted #[derive] list satisfies rustc's supertrait requirements and keeps what the user wrote.",
   note="serde/serde_json and rustc's derive macros are trusted to implement the contract the model states; the repo-specific part (derive list, attributes, field naming, to_json/from_json glue, json_stringify builtin) is tied by compiling and running generated programs. One fix: commit (`.clone()` rejected by the checker). Findings outside this check's streams are listed in DESIGN.md (d[model_key] read needs Display; sorted(List[Model]) rejected).",
   technique="Lean 4 proof (mutual structural induction over nested values/types; finite case analysis for derive subsets) + compiled-program correspondence + Python (json, tuple order) oracle",
   ref="C20"),
